@@ -82,6 +82,12 @@ try:
     from typing import ForwardRef  # type: ignore
 
     def evaluate_forward_ref(ref: ForwardRef, globalns: Any, localns: Any):
+        if localns is None:
+            # typing stores the evaluated class on the ForwardRef object, and the ForwardRef objects nested in
+            # generic aliases (List['Node'] inside a whole-string annotation) are cached process-wide: with a
+            # local namespace that is not the global one typing evaluates again in THESE namespaces instead of
+            # handing back the class that a same-named reference of another module was resolved to
+            localns = {}
         return typing._eval_type(ref, globalns, localns)  # noqa
 
 except ImportError:
